@@ -222,6 +222,16 @@ def monOp (op : String) (args : List String) : Option String :=
     let (sa, _) ← pNat ts
     let amp := match p.ptype with | .stable a => a | .cp => 1
     some (verdict (monSsLp amp p.decimals (p.assets.map (·.amount)) after sb sa))
+  | "mon_farm_expand" => do
+    let (xs, ts) ← pRepeat pNat 6 args
+    let (same, _) ← pBit ts
+    match xs with
+    | [rate, attached, endB, endA, amtB, amtA] =>
+      some (if rate == 0 then "ok"
+        else if amtA != amtB + attached then "viol C11-expand-budget"
+        else if endA != endB + attached / rate then "viol C11-expand-end"
+        else if !same then "viol C11-expand-other-fields" else "ok")
+    | _ => none
   | "mon_close_refunds" => do
     let (_n, ts) ← pNat args
     let (missing, ts) ← pNat ts
